@@ -1,12 +1,13 @@
 """BOUNDED companion of C20 (never counted as proved).  The deductive part of C20 treats ONE call of the tool wrapper with the tool's
 outputs fully arbitrary (E-PROC); what a contract on one call cannot see is state that survives between calls (a reused output
 file, a cached verdict).  Here the stand-in xmlsec1 executable (bounded/xmlsec1_standin.py, started by the unmodified backend)
-is told to FAIL -- ordinary error exit, death by signal, silent exit 0 without result, garbage output, truncated output -- at
+is told to FAIL -- ordinary error exit, death by signal, silent exit 0 without result, garbage output, truncated output, an error
+message that merely contains the word OK -- at
 the first use of an operation and after one or two successful uses on the SAME SP / IdP object:
 
   SP    a failing --verify or --decrypt must end in rejection: no response object, no identity -- in particular not the identity
         of the message processed successfully just before;
-  IdP   a failing --sign or --encrypt must end in an error, never in a returned response (unsigned, in clear, or the previous one).
+  IdP   a failing --verify of a signed AuthnRequest must end in rejection of the request; a failing --sign or --encrypt must end in an error, never in a returned response (unsigned, in clear, or the previous one).
 
 An "OK" that the tool gives wrongly is not a failure of the tool in the sense of C20 and is not simulated."""
 import base64
@@ -17,7 +18,7 @@ import os
 import warnings
 
 warnings.simplefilter('ignore')
-HOWS = ['exit1', 'killed', 'silent', 'garbage', 'truncated']
+HOWS = ['exit1', 'killed', 'silent', 'garbage', 'truncated', 'ok-inside-text']
 GOOD = {'givenName': ['Derek'], 'mail': ['derek@example.org']}
 
 
@@ -92,6 +93,37 @@ def run(tier, seed):
                                            'what': 'the tool failed%s, yet the SP returned a response with subject %r and attributes %r '
                                                    '(%d use(s) of the operation had succeeded before on this SP)'
                                                    % ('' if fired else ' (it was never started)', got[0], got[1], used)})
+            # ------------------------------------------------------------------ IdP side: --verify of a signed request
+            from saml2_tophat import BINDING_HTTP_REDIRECT
+            from saml2_tophat.s_utils import deflate_and_base64_encode
+            sp = env.sp_for('sp', False, False)
+            for how, after in itertools.product(HOWS, afters):
+                n += 1
+                label = 'IdP: --verify of a signed AuthnRequest fails (%s) after %d successful use(s)' % (how, after)
+                disarm()
+                try:
+                    reqs = []
+                    for i in range(after + 1):
+                        rid, req = sp.create_authn_request(SSO, binding=env.POST, sign=True)
+                        reqs.append((rid, deflate_and_base64_encode(str(req))))
+                    for rid, enc in reqs[:after]:
+                        ok = env.idp.parse_authn_request(enc, BINDING_HTTP_REDIRECT)
+                        if ok is None or ok.message.id != rid:
+                            raise ValueError('a genuine signed request was not accepted while the tool worked')
+                except Exception as e:
+                    violations.append({'name': 'bounded[tool-failure:setup]', 'case': label, 'what': 'setup failed: %r' % (e,)})
+                    continue
+                arm('--verify', how, 0)
+                try:
+                    got = env.idp.parse_authn_request(reqs[after][1], BINDING_HTTP_REDIRECT)
+                except Exception:
+                    got = None
+                fired = json.load(open(ctl)).get('count', 0) > 0
+                disarm()
+                if got is not None:
+                    violations.append({'name': 'bounded[tool-failure:idp-accepts-request]', 'case': label,
+                                       'what': 'the tool failed%s, yet the IdP accepted the signed request %r' % ('' if fired else ' (it was never started)',
+                                                                                                                  getattr(getattr(got, 'message', None), 'id', None))})
             # ------------------------------------------------------------------ IdP side: --sign and --encrypt
             for op, kw in (('--sign', {'sign_response': True, 'sign_assertion': True}),
                            ('--encrypt', {'sign_response': False, 'sign_assertion': False, 'encrypt_assertion': True}),
@@ -139,5 +171,5 @@ def run(tier, seed):
             else:
                 os.environ['XMLSEC1_STANDIN_FAIL'] = saved
     return {'name': 'tool_failure', 'label': 'BOUNDED (failure modes of the stand-in tool walked through short histories on one SP / IdP object; not a proof)',
-            'bound': '%d failure modes x %d history lengths x (verify, decrypt on the SP; sign, encrypt, encrypt-advice on the IdP)' % (len(HOWS), len(afters)),
+            'bound': '%d failure modes x %d history lengths x (verify, decrypt on the SP; request verification, sign, encrypt, encrypt-advice on the IdP)' % (len(HOWS), len(afters)),
             'evaluations': n, 'unusable_output_handed_on_not_judged': unusable, 'violations': violations[:30]}
